@@ -43,6 +43,11 @@ var junks = []junk{
 	{name: "route-failing-schema", ext: ".yaml", document: true, severe: true, marker: "zzbadroute", content: "apiVersion: route.openshift.io/v1\nkind: Route\nmetadata: {name: zzbadroute, namespace: ns1}\nspec:\n  to: [a, b]\n"},
 	{name: "anp-failing-schema", ext: ".yaml", document: true, severe: true, marker: "zzbadanp", content: "apiVersion: policy.networking.k8s.io/v1alpha1\nkind: AdminNetworkPolicy\nmetadata: {name: zzbadanp}\nspec:\n  priority: high\n  subject: {namespaces: {}}\n"},
 	{name: "statefulset-failing-schema", ext: ".yaml", document: true, severe: true, marker: "zzbadss", content: "apiVersion: apps/v1\nkind: StatefulSet\nmetadata: {name: zzbadss, namespace: ns1}\nspec:\n  replicas: [1]\n  template: {metadata: {labels: {app: zz}}, spec: {containers: [{name: c, image: x}]}}\n"},
+	// a kind the tool reads, in a foreign API group, named like the real Service of the Service/Ingress world (Knative creates exactly this pair)
+	{name: "foreign-group-service-named-like-the-real-one", ext: ".yaml", document: true, content: "apiVersion: serving.knative.dev/v1\nkind: Service\nmetadata: {name: s, namespace: ns1}\nspec:\n  template: {spec: {containers: [{image: x}]}}\n"},
+	// irrelevant kinds that carry no metadata.name at all
+	{name: "kustomization-without-name", ext: ".yaml", document: true, content: "apiVersion: kustomize.config.k8s.io/v1beta1\nkind: Kustomization\nresources: [10-a.yaml, 20-b.yaml]\ncommonLabels: {app: zz}\n"},
+	{name: "kind-cluster-config-without-name", ext: ".yaml", document: true, content: "kind: Cluster\napiVersion: kind.x-k8s.io/v1alpha4\nnodes: [{role: control-plane}, {role: worker}]\n"},
 	{name: "empty-file", ext: ".yaml", content: ""},
 	{name: "json-configmap", ext: ".json", content: "{\"apiVersion\": \"v1\", \"kind\": \"ConfigMap\", \"metadata\": {\"name\": \"cmj\", \"namespace\": \"ns1\"}, \"data\": {\"k\": \"v\"}}\n"},
 }
@@ -321,8 +326,8 @@ func firstLine(s string) string {
 }
 
 func Run(r *fw.Run) {
-	r.Rule = "4 valid worlds (NetworkPolicy; none; + ANP; + Service/Ingress) laid out in three manifest files x every subset of size <=2 (the empty one included) of a 9-element junk alphabet x every applicable placement (own file first / last in sort order, sub-directory; for document junk also as an extra document at the start / middle / end of a manifest file) x stopOnError {off,on} x {list, diff as dir1, diff as dir2}, all on real files; non-trivial/distinct = each combination with at least one injected document"
-	r.Assume = []string{"classification of the junk alphabet: severe = YAML syntax error file, YAML without kind, NetworkPolicy / Deployment failing schema conversion; irrelevant (no severe entry) = ConfigMap, unknown CRD kind, .txt file, empty file, JSON ConfigMap",
+	r.Rule = "4 valid worlds (NetworkPolicy; none; + ANP; + Service/Ingress) laid out in three manifest files x every subset of size <=2 (the empty one included) of a 19-element junk alphabet x every applicable placement (own file first / last in sort order, sub-directory; for document junk also as an extra document at the start / middle / end of a manifest file) x stopOnError {off,on} x {list, diff as dir1, diff as dir2}, all on real files; non-trivial/distinct = each combination with at least one injected document"
+	r.Assume = []string{"classification of the junk alphabet: severe = YAML syntax error file, YAML without kind, NetworkPolicy / Deployment failing schema conversion; irrelevant (no severe entry) = ConfigMap, unknown CRD kind, a Service of a foreign API group named like the real Service, Kustomization / kind Cluster config without metadata.name, .txt file, empty file, JSON ConfigMap",
 		"syntactically broken input is placed as its own file (as the statement says); only document junk is added to existing manifest files"}
 	if r.Quick() {
 		r.SetBudget(150 * time.Second)
